@@ -257,37 +257,60 @@ pub struct Obs {
 
 const FLAG_SETS: &[(u8, &str)] = &[(0b11111, "all"), (0b00100, "start-tags"), (0b01000, "end-tags"), (0b00001, "text"), (0b00010, "comments"), (0b10000, "doctypes")];
 
+#[derive(PartialEq, Clone, Copy)]
+enum GuardSt {
+    Default,
+    InSelect,
+    InTpl(usize),
+    Frameset,
+}
+
+fn guard_step(st: GuardSt, t: &HTok) -> GuardSt {
+    use GuardSt as St;
+    match (st, t) {
+        (St::Frameset, _) => St::Frameset,
+        (St::Default, HTok::Start { name, .. }) if name == "select" => St::InSelect,
+        (St::Default, HTok::Start { name, .. }) if name == "frameset" => St::Frameset,
+        (St::InSelect, HTok::Start { name, .. }) if matches!(name.as_str(), "select" | "textarea" | "input" | "keygen") => St::Default,
+        (St::InSelect, HTok::Start { name, .. }) if name == "template" => St::InTpl(1),
+        (St::InSelect, HTok::End { name }) if name == "select" => St::Default,
+        (St::InTpl(d), HTok::Start { name, .. }) if name == "template" => St::InTpl(d + 1),
+        (St::InTpl(d), HTok::End { name }) if name == "template" => {
+            if d == 1 {
+                St::InSelect
+            } else {
+                St::InTpl(d - 1)
+            }
+        }
+        (s, _) => s,
+    }
+}
+
 /// independent model of the statement's "inside select (incl. template in select) or in/after frameset", over the
 /// token stream html5ever produces for the prefix
 pub fn syntactic_guard_context(prefix: &str) -> bool {
-    #[derive(PartialEq)]
-    enum St {
-        Default,
-        InSelect,
-        InTpl(usize),
-        Frameset,
-    }
-    let mut st = St::Default;
+    let mut st = GuardSt::Default;
     for t in html5ever_tokens(prefix) {
-        st = match (st, &t) {
-            (St::Frameset, _) => St::Frameset,
-            (St::Default, HTok::Start { name, .. }) if name == "select" => St::InSelect,
-            (St::Default, HTok::Start { name, .. }) if name == "frameset" => St::Frameset,
-            (St::InSelect, HTok::Start { name, .. }) if matches!(name.as_str(), "select" | "textarea" | "input" | "keygen") => St::Default,
-            (St::InSelect, HTok::Start { name, .. }) if name == "template" => St::InTpl(1),
-            (St::InSelect, HTok::End { name }) if name == "select" => St::Default,
-            (St::InTpl(d), HTok::Start { name, .. }) if name == "template" => St::InTpl(d + 1),
-            (St::InTpl(d), HTok::End { name }) if name == "template" => {
-                if d == 1 {
-                    St::InSelect
-                } else {
-                    St::InTpl(d - 1)
-                }
-            }
-            (s, _) => s,
-        };
+        st = guard_step(st, &t);
     }
-    st != St::Default
+    st != GuardSt::Default
+}
+
+/// does a text-mode switching start tag (other than the ones that leave / are allowed in select) occur while the
+/// syntactic model is inside select / template-in-select / after frameset?  (token names lower-cased)
+fn switch_tag_in_guard_context(toks: &[HTok]) -> bool {
+    let mut st = GuardSt::Default;
+    for t in toks {
+        if let HTok::Start { name, .. } = t {
+            let n = name.to_ascii_lowercase();
+            let exempt = st == GuardSt::InSelect && matches!(n.as_str(), "script" | "textarea" | "select" | "input" | "keygen");
+            if st != GuardSt::Default && !exempt && gen::TEXT_MODE_NAMES.contains(&n.as_str()) {
+                return true;
+            }
+        }
+        st = guard_step(st, t);
+    }
+    false
 }
 
 pub fn check(input: &[u8], cuts: &[usize]) -> Result<Obs, (String, String)> {
@@ -453,6 +476,11 @@ pub fn refine_key(key: &str, input: &[u8], cuts: &[usize]) -> String {
     }
     let LRes::Ok(toks, _) = lol_tokens(input, cuts, TokenCaptureFlags::all(), true) else { return key.to_string() };
     let Ok(h) = to_htoks(&toks) else { return key.to_string() };
+    // the finding is about templates *outside* select: a run that let a text-mode switching tag through while the
+    // syntactic model is inside select / template-in-select is a different defect and keeps the generic key
+    if switch_tag_in_guard_context(&norm_h(h.clone())) {
+        return key.to_string();
+    }
     let mine: Vec<HTok> = merge_text(h).into_iter().map(untemplate_tok).collect();
     let input2 = untemplate(input);
     let Ok(text2) = std::str::from_utf8(&input2) else { return key.to_string() };
